@@ -1232,6 +1232,113 @@ def _second_chance(facts):
     return renames, perms
 
 
+def param_roles(body):
+    """Per parameter: the set of syntactic contexts it is used in (argument k of callee f, field g of aggregate A, operand of
+    op, index / base of an indexing, projected field). A spelling-independent hint used only to tell equally typed parameters
+    apart after a reordering."""
+    n = body.j['arg_count']
+    roles = [set() for _ in range(n)]
+
+    def walk(t, ctx):
+        if not isinstance(t, tuple):
+            return
+        k = t[0]
+        if k == 'v' and isinstance(t[2], int) and 1 <= t[2] <= n:
+            if ctx is not None:
+                roles[t[2] - 1].add(ctx)
+            return
+        if k == 'call':
+            sp = short(t[1])
+            for i, a in enumerate(t[2]):
+                walk(a, 'call:%s:%d' % (sp, i))
+        elif k == 'agg':
+            if isinstance(t[3], dict):
+                for f, a in t[3].items():
+                    walk(a, 'agg:%s:%s' % (t[1], f))
+            else:
+                for i, a in enumerate(t[3]):
+                    walk(a, 'agg:%s:%d' % (t[1], i))
+        elif k == 'op':
+            walk(t[2], 'op:' + t[1])
+            walk(t[3], 'op:' + t[1])
+        elif k == 'idx':
+            walk(t[1], 'idx-base')
+            walk(t[2], 'idx-index')
+        elif k == 'f':
+            walk(t[1], 'field:%s' % t[2])
+        elif k in ('cast', 'un', 'conv', 'discr', 'dc', 'len'):
+            for x in t[1:]:
+                if isinstance(x, tuple):
+                    walk(x, ctx)
+        else:
+            for x in t[1:]:
+                if isinstance(x, tuple):
+                    walk(x, k)
+    live = body.live_blocks()
+    for bi in range(body.n):
+        if bi not in live:
+            continue
+        blk = body.blocks[bi]
+        for st in blk['stmts']:
+            if st['k'] == 'assign':
+                try:
+                    walk(body.rvalue_term(st['r'], 0, bi), 'store:%s' % '.'.join(str(pr.get('f', '?')) for pr in st['p']['pr'] if isinstance(pr, dict)) if st['p']['pr'] else None)
+                except Exception:
+                    pass
+        t = blk['term']
+        try:
+            if t['k'] == 'call':
+                walk(body.call_term(bi, t), None)
+            elif t['k'] == 'switch':
+                walk(body.operand_term(t['discr'], 0, bi), 'switch')
+        except Exception:
+            pass
+    return [sorted(r) for r in roles]
+
+
+def _role_perms(facts):
+    """Vocabulary functions with equally typed parameters whose order can neither be settled by parameter names nor by an
+    exact summary match: choose the assignment that maximises the overlap of usage contexts with the reference
+    (rules/vocab_roles.json), if that maximum is unique and better than leaving the order alone."""
+    import itertools
+    base = os.path.join(os.path.dirname(os.path.dirname(os.path.abspath(__file__))), 'rules')
+    try:
+        refr = json.load(open(os.path.join(base, 'vocab_roles.json')))
+        refp = json.load(open(os.path.join(base, 'vocab_params.json')))
+    except Exception:
+        return {}
+    perms = {}
+    for p, b in facts.bodies.items():
+        r = refp.get(p)
+        rr = refr.get(p)
+        if r is None or rr is None or len(r) != b.j['arg_count'] or len(r) < 2 or len(r) > 6:
+            continue
+        ref_t = [ty for nm, ty in r]
+        cur_t = [b.locals[i + 1]['ty'] for i in range(len(r))]
+        if cur_t != ref_t or len(set(ref_t)) == len(ref_t):
+            continue
+        cur_n = [(b.locals[i + 1]['names'] or [None])[0] for i in range(len(r))]
+        if cur_n == [nm for nm, ty in r]:
+            continue
+        cur = [set(x) for x in param_roles(b)]
+        ref = [set(x) for x in rr]
+
+        def score(pm):
+            tot = 0.0
+            for i in range(len(pm)):
+                u = cur[i] | ref[pm[i]]
+                tot += (len(cur[i] & ref[pm[i]]) / len(u)) if u else 1.0
+            return tot
+        cands = [list(pm) for pm in itertools.permutations(range(len(r))) if all(cur_t[i] == ref_t[pm[i]] for i in range(len(r)))]
+        if len(cands) < 2:
+            continue
+        sc = sorted(((score(pm), pm) for pm in cands), reverse=True)
+        ident = list(range(len(r)))
+        if sc[0][1] != ident and sc[0][0] > sc[1][0] + 0.5 and sc[0][0] > score(ident) + 0.5:
+            perms[p] = sc[0][1]
+    return perms
+
+
 def _apply_param_perms(j, perms):
     """like _canonical_param_order, for explicitly given permutations"""
     if not perms:
@@ -1330,6 +1437,15 @@ class Facts:
             _apply_renames(self.j, ren)
             _apply_param_perms(self.j, perms)
             self.j.setdefault('renamed', {}).update(ren)
+        try:
+            for b in self.j['bodies']:
+                self.bodies[b['path']] = Body(b, self)
+            rp = _role_perms(self)
+        except Exception:
+            rp = {}
+        if rp:
+            _apply_param_perms(self.j, rp)
+            self.j.setdefault('role_perms', {}).update({k: v for k, v in rp.items()})
         self.__dict__.pop('_getters', None)
         _canonical_params(self.j)
         _canonical_fields(self.j)
